@@ -21,7 +21,7 @@ TIMEOUT = {"quick": 300, "thorough": 1500}
 
 
 def cases(tier, seed):
-    n = 48 if tier == "quick" else 1200
+    n = 48 if tier == "quick" else 4000
     cs = workload.reader_population(n, seed + 500, max_levels=3, max_fields=6)
     for i, c in enumerate(cs):
         c["sel_seed"] = seed * 23 + i
